@@ -181,6 +181,16 @@ func gen(t *common.Trace, e common.Engine, r *common.Rng, thorough bool) {
 		ncases = 2500
 		nframes = 400
 	}
+	// Write against a concurrent adjustLayer (the RTCP listener): feedback must never move the current layer
+	{
+		t.Case("layer-race")
+		e.Reset()
+		ms := 250
+		if thorough {
+			ms = 5000
+		}
+		common.Do(t, e, fmt.Sprintf("racestress %d", ms))
+	}
 	// one long history: a three-temporal-layer VP8 stream to a receiver held on T0, so that more than
 	// 65536 packets are withheld (the 16-bit offset wraps to 0 while the picture-id shift does not)
 	{
